@@ -275,6 +275,21 @@ def check_c07(v: Verdict, t1_summary, n_cases, max_ops):
             if x is not None:
                 hist["nested"] += 1
                 probes.append((("probe", 0, d, pool.tid(t), True), x, len(r.history[0]), False))
+        # a registration for a class whose containers are already in use, repeated: the latest registration wins, also nested
+        if ci % 2 == 0:
+            for t in rng.sample([u for u in L.NESTABLE if isinstance(u, type)], 2):
+                d = rng.choice(["DUn", "DSt"])
+                kind = rng.choice(["list", "holder"])
+                if d == "DUn" and kind == "list" and not full:
+                    continue
+                for rnd in range(2):
+                    r.do(("reghook", 0, d, pool.tid(t), 700 + 10 * (ci % 20) + rnd))
+                    hist["reghook"] += 1
+                    x = r.do(("nested", 0, d, pool.tid(t), kind))
+                    if x is not None:
+                        hist["nested"] += 1
+                        hist["nested_after_reregistration"] = hist.get("nested_after_reregistration", 0) + rnd
+                        probes.append((("probe", 0, d, pool.tid(t), True), x, len(r.history[0]), False))
         # oracle
         for (s, x, hlen, same_as_base) in probes:
             hist["probes"] += 1
